@@ -60,7 +60,7 @@ class Kit:
     def iri_str(tag: str, shape: str = "hash") -> Any:
         # fully structured atoms: rpartition on '#' or '/' is decidable whatever order the code tries them in
         if shape == "hash":
-            return sstr(Atom(tag + ".scheme", nosep=True), "/", Atom(tag + ".path", nosep=True), "#", Atom(tag + ".local", nosep=True, nonempty=None))
+            return sstr(Atom(tag + ".scheme", nosep=True), "/", Atom(tag + ".path", nosep=True), "#", Atom(tag + ".local", nosep=True))
         if shape == "slash":
             return sstr(Atom(tag + ".scheme", nosep=True), "/", Atom(tag + ".path", nosep=True), "/", Atom(tag + ".local", nosep=True))
         if shape == "nosep":
@@ -81,7 +81,7 @@ class Kit:
         return self.new(GK, "BlankNode", self.text(tag + ".id"))
 
     def g_lit(self, tag: str, kind: str = "plain") -> Obj:
-        lex = self.text(tag + ".lex", nonempty=None)
+        lex = self.text(tag + ".lex")
         if kind == "plain":
             return self.new(GK, "Literal", lex)
         if kind == "lang":
